@@ -21,7 +21,11 @@ MAP = [
     ("MinGenSet search range and inconclusive", "C15", "MinGenSet unsolved when the optimum is len(numbers) or len(numbers)+1 ([1,2,4] with total 7 or 100); continued to a larger size after an inconclusive solver status (also C13)"),
     ("k-LeastAbsErrors objective value must use the error scaling", "C07", "with error_scaling get_objective_value() returned the unscaled error sum while the model minimises the scaled one; is_valid_solution() rejected the model's own optimum"),
     ("do not write model-internal entries into the caller", "C18", "a non-empty optimization_options dict passed by the caller was aliased and extended (trusted_edges_for_safety, allow_empty_paths, ...) by kFlowDecompCycles, kLeastAbsErrors(+Cycles), kMinPathError(+Cycles) and through MinFlowDecompCycles"),
-    ("must not modify the caller.s max_edge_repetition_dict", "C18", "AbstractWalkModelDiGraph overwrote entries of the caller-owned max_edge_repetition_dict"),
+    ("must not modify the caller's max_edge_repetition_dict", "C18", "AbstractWalkModelDiGraph overwrote entries of the caller-owned max_edge_repetition_dict"),
+    ("graphs without source or sink must be rejected", "C19", "a graph without source or sink given to a walk model raised NetworkXError / OverflowError or was silently accepted (string id iterated as node container) instead of the documented ValueError"),
+    ("kFlowDecomp greedy pre-check must not fail", "C19", "kFlowDecomp raised KeyError for a constraint naming an absent edge (instead of ValueError) and for a single-node node-weighted graph (in-domain input)"),
+    ("DAG path models must reject k <= 0", "C19", "k <= 0: UnboundLocalError from kLeastAbsErrors/kMinPathError, silently accepted by kPathCover"),
+    ("MinFlowDecompCycles must reject a non-conserving flow", "C19", "MinFlowDecompCycles accepted a non-conserving flow although it documents a ValueError"),
     ("MinErrorFlow with few_flow_values_epsilon on node-weighted", "C16", "MinErrorFlow(flow_attr_origin='node', few_flow_values_epsilon>0) raised KeyError"),
 ]
 def main():
